@@ -224,7 +224,7 @@ void full_row(tmatrix<N, M, int>& m) {
   for (us k = 0; k != M; ++k)
     std::cout << "row " << M << " " << I << " 0 ; " << k << " = "
               << off(&v[k], m.data()) << "\n";
-  row_all_j<N, M, I>(m, std::make_integer_sequence<us, M>());
+  if constexpr (N * M <= 9) row_all_j<N, M, I>(m, std::make_integer_sequence<us, M>());
 }
 template <us N, us M, us I>
 void full_col(tmatrix<N, M, int>& m) {
@@ -232,7 +232,7 @@ void full_col(tmatrix<N, M, int>& m) {
   for (us k = 0; k != N; ++k)
     std::cout << "col " << M << " " << I << " 0 ; " << k << " = "
               << off(&v[k], m.data()) << "\n";
-  col_all_j<N, M, I>(m, std::make_integer_sequence<us, N>());
+  if constexpr (N * M <= 9) col_all_j<N, M, I>(m, std::make_integer_sequence<us, N>());
 }
 template <us N, us M, us... I>
 void all_rows(tmatrix<N, M, int>& m, std::integer_sequence<us, I...>) {
@@ -343,7 +343,12 @@ void dump_coalesced() {
   }
 }
 
+#ifndef C17_PART
+#define C17_PART 0
+#endif
+
 int main() {
+#if C17_PART == 0 || C17_PART == 1
   // fixed size vectors N = 1..6, stride 1..4; matrices N, M = 1..6, stride M, M+1, M+3
   dump_vecs(std::make_integer_sequence<us, 6>());
   dump_mats(std::make_integer_sequence<us, 6>());
@@ -386,6 +391,8 @@ int main() {
   dump_pair<N1, N2>();
   dump_pair<N2, B0>();
   dump_pair<B0, N1>();
+#endif
+#if C17_PART == 0 || C17_PART == 2
   // the policies of the library's own objects
   dump_policy<typename tvector<3, int>::indexing_policy>();
   dump_policy<typename tmatrix<2, 3, int>::indexing_policy>();
@@ -423,5 +430,6 @@ int main() {
   dump_coalesced<stensor<2, int>, typename stensor<2, int>::indexing_policy>();
   dump_coalesced<stensor<3, int>, typename stensor<3, int>::indexing_policy>();
   dump_coalesced<tmatrix<3, 2, int>, typename tmatrix<3, 2, int>::indexing_policy>();
+#endif
   return 0;
 }
